@@ -2298,6 +2298,11 @@ def eqn2_helpers(e, bitslice=False, widening=False):
         if e.op.symbol in (OP_NEQ, OP_LT, OP_GT):
             return bit0
         if e.op.symbol in (OP_EQ, OP_LE, OP_GE):
+            if e.sf:
+                # a signed 1-bit true is not the shared (unsigned) bit1
+                res = cst(1, 1)
+                res.sf = True
+                return res
             return bit1
         if e.op.symbol == OP_MIN:
             return cst(0, e.size)
